@@ -18,7 +18,11 @@ package provider
 //   reprovide-window   (2) every window of interval + maxDelay + slack inside a key's kept period
 //                          contains a complete advertisement to its then-nearest healthy r peers
 //   catch-up           (2) after an outage longer than the interval every kept key is completely
-//                          re-advertised within the catch-up bound of coming back
+//                          re-advertised within the catch-up bound of coming back; a window that meets a
+//                          shorter outage ends at the catch-up bound after it at the earliest; keys handed
+//                          over during an outage and still queued at its end (no Offline transition) are
+//                          advertised within catch-up + provide bound; keys started during an outage are
+//                          kept (window oracle) from its end on
 //   stop               (3) no ADD_PROVIDER for a key later than slack after StopProviding
 //   restart-resume     (4) keys queued at Close are advertised after a resumed restart
 //   recipient-reported (6) every recipient was reported by the router before
@@ -32,6 +36,20 @@ package provider
 //   …/not-advertised/provide-once-key,     #18 a key queued by ProvideOnce (not in the keystore) is
 //   restart/not-resumed/provide-once-key       dropped when the reprovide of its region empties the
 //                                              provide queue under the region's prefix
+//   reprovide/gap-exceeds-bound/               a kept key skips a cycle after other keys were handed to
+//   start-after-first-cycle-inside-window      StartProviding later than one interval after the start: a
+//                                              new key outside every scheduled prefix is scheduled under the
+//                                              average prefix length, which unschedules the longer prefixes
+//                                              below it; when the slot of the new prefix has passed in this
+//                                              cycle and theirs had not, their keys wait for the next cycle
+//                                              (witness: unit outage, thorough tier, seed 1, case 195)
+//   reprovide/gap-exceeds-bound/               the schedule held a single region (timer armed for a full
+//   schedule-grown-from-one-region-…           interval) when a later StartProviding added regions: at the
+//                                              next alarm handleReprovide takes every added region for late
+//                                              (queued, reprovided at once) and leaves the cursor where it is;
+//                                              the reschedule after such a catch-up moves the cursor to a later
+//                                              region, the regions in between skip their slot of this cycle
+//                                              (witness: unit outage, thorough tier, seed 1, case 373)
 // A miss that follows an exploration stopped at the provider's cap of 64 lookups is documented
 // behaviour (bounded exploration, heals in the next cycle): counted as an observation, not judged;
 // the generator keeps clustered swarms <= 600 peers and growth <= x4 per step to stay below the cap.
@@ -228,6 +246,14 @@ type vC17Send struct {
 	peer  int32
 	epoch int32
 	ok    bool
+	flaky bool // failed although the peer is healthy (transient error, see vC17Sim.flakyPct)
+}
+
+// vC17Job identifies the sequence of RPCs one sender goroutine of the provider makes to one peer
+// (every sender goroutine of sendProviderRecords owns one message struct and reuses it).
+type vC17Job struct {
+	m *pb.Message
+	p int32
 }
 
 type vC17Epoch struct {
@@ -257,6 +283,16 @@ type vC17Sim struct {
 	deadPct            int
 	routerLat, sendLat atomic.Int64 // max injected latency (ns)
 
+	// transient errors of healthy recipients: an ADD_PROVIDER for (key, peer) fails with this
+	// probability, at most once per pair and 20 virtual minutes, and never twice in a row within the
+	// RPC sequence of one sender goroutine to one peer - so the provider's "more than 2 consecutive
+	// failures: give up on this peer" rule never fires and every key is still attempted at every peer.
+	// The provider does not retry a failed record (documented), so a failed attempt discharges the pair.
+	flakyPct   int
+	flakyDone  map[[3]int32]bool
+	flakyLast  map[vC17Job]bool
+	nSendFlaky int
+
 	provideClause, provideSig string               // how a missed hand-over obligation is reported
 	sigOf                     func(k int32) string // optional refinement of provideSig per key
 	noteOf                    func(k int32) string // optional annotation of a key in witnesses
@@ -270,6 +306,10 @@ type vC17Sim struct {
 	targets   map[[2]int32][]int32
 	model     map[int32]*vC17KeyModel
 	blocked   [][2]time.Duration // outages: obligations suspended
+	shortOut  [][2]time.Duration // outages shorter than the smallest offline delay: windows across them get a later deadline
+	deferred  []vC17Deferred     // keys handed over during an outage and still queued when it ends
+	startAt   []time.Duration    // times of the StartProviding calls
+	oneRegion time.Duration      // > 0: a StartProviding call at this time (>= one interval after the start) found a schedule of one region
 	nGCP      int
 	nSend     int
 	nSendFail int
@@ -319,7 +359,7 @@ func vC17NewSim(c *vh.Case, r, deadPct int, routerLat, sendLat time.Duration, me
 	selfH, _ := mh.Sum([]byte(fmt.Sprintf("vC17-self-%d", c.R.Int63())), mh.SHA2_256, -1)
 	s := &vC17Sim{c: c, pool: p, self: peer.ID(selfH), base: time.Now(), r: r, salt: c.R.Uint64(), deadPct: deadPct,
 		provideClause: "provide-bound", provideSig: "provide/not-advertised", reported: make([]bool, len(p.peers)), sends: map[int32][]vC17Send{},
-		targets: map[[2]int32][]int32{}, model: map[int32]*vC17KeyModel{}}
+		targets: map[[2]int32][]int32{}, model: map[int32]*vC17KeyModel{}, flakyDone: map[[3]int32]bool{}, flakyLast: map[vC17Job]bool{}}
 	s.routerLat.Store(int64(routerLat))
 	s.sendLat.Store(int64(sendLat))
 	s.epochs = []vC17Epoch{{start: 0, members: append([]int32(nil), members...)}}
@@ -461,7 +501,24 @@ func (s *vC17Sim) SendMessage(ctx context.Context, p peer.ID, m *pb.Message) err
 		s.badPay = append(s.badPay, fmt.Sprintf("+%v key %s to %x: %d provider entries, addrs %v, expected self with %v", now, vC17Bits(&s.pool.keys[ki].kad, 12), string(p), len(pp), pp, s.addrs))
 	}
 	ok := !s.outage.Load() && !s.dead(pi)
-	s.sends[ki] = append(s.sends[ki], vC17Send{t: now, peer: pi, epoch: int32(len(s.epochs) - 1), ok: ok})
+	flaky := false
+	if ok && s.flakyPct > 0 {
+		job, pair := vC17Job{m, pi}, [3]int32{ki, pi, int32(now / (20 * time.Minute))}
+		x := (uint64(ki)*0x9e3779b97f4a7c15 + uint64(pi)*0xbf58476d1ce4e5b9 + uint64(pair[2])) ^ s.salt
+		x ^= x >> 31
+		x *= 0x94d049bb133111eb
+		x ^= x >> 29
+		if int(x%100) < s.flakyPct && !s.flakyDone[pair] && !s.flakyLast[job] {
+			flaky, ok = true, false
+			s.flakyDone[pair] = true
+		}
+		s.flakyLast[job] = flaky
+	}
+	s.sends[ki] = append(s.sends[ki], vC17Send{t: now, peer: pi, epoch: int32(len(s.epochs) - 1), ok: ok, flaky: flaky})
+	if flaky {
+		s.nSendFlaky++
+		return errors.New("vC17 sim: stream reset")
+	}
 	if !ok {
 		s.nSendFail++
 		return errors.New("vC17 sim: peer unreachable")
@@ -520,6 +577,7 @@ func (s *vC17Sim) kept(k int32) bool {
 func (s *vC17Sim) start(p *SweepingProvider, force bool, keys []int32) {
 	t := s.now()
 	s.mu.Lock()
+	s.startAt = append(s.startAt, t)
 	for _, k := range keys {
 		m := s.km(k)
 		if !s.kept(k) {
@@ -650,7 +708,7 @@ func (s *vC17Sim) complete(k int32, lo, hi time.Duration) (ok, anySend bool) {
 	var got map[[2]int32]bool
 	for ; i < len(sends) && sends[i].t <= hi; i++ {
 		anySend = true
-		if sends[i].ok {
+		if sends[i].ok || sends[i].flaky {
 			if got == nil {
 				got = map[[2]int32]bool{}
 			}
@@ -781,6 +839,15 @@ func (s *vC17Sim) allocSig(v *vC17Verdict, k int32, lo, hi time.Duration) (*int,
 	return &v.allocFail, "alloc/not-r-nearest", ""
 }
 
+// vC17Deferred is the obligation for a key handed over while the network was down and the provider
+// never went Offline (the provide queue is only cleared by the Offline transition): it waits in the
+// provide queue and is advertised completely within [lo, hi] after the outage.
+type vC17Deferred struct {
+	k      int32
+	lo, hi time.Duration
+	note   string
+}
+
 type vC17Verdict struct {
 	capFail                                                 int
 	provideJudged, windowsJudged, stopJudged, catchupJudged int
@@ -832,6 +899,7 @@ func (s *vC17Sim) evaluate(end time.Duration, windows bool) vC17Verdict {
 	c.ObsMax("case_wall_ms_observation_only", int(time.Since(vC17CaseStart)/time.Millisecond))
 	c.Obs("add_provider_rpcs", s.nSend)
 	c.Obs("add_provider_failed_dead_or_offline", s.nSendFail)
+	c.Obs("add_provider_failed_transiently", s.nSendFlaky)
 	c.Obs("get_closest_peers_calls", s.nGCP)
 	c.ObsMax("batch_time_ms", int(batch/time.Millisecond))
 
@@ -946,23 +1014,68 @@ func (s *vC17Sim) evaluate(end time.Duration, windows bool) vC17Verdict {
 					}
 				}
 				for _, x := range xs {
+					// a window that meets an outage shorter than the offline delay (regions whose slot fell
+					// into it are caught up afterwards) ends at the catch-up bound after the outage at the
+					// earliest
+					hi, across := x+W, ""
+					for _, so := range s.shortOut {
+						if so[0] < hi && so[1] > x && so[1]+vC17CatchUpBound > hi {
+							hi = so[1] + vC17CatchUpBound
+							across = fmt.Sprintf(", extended to the catch-up bound %v after the outage [+%v, +%v]", vC17CatchUpBound, so[0].Round(time.Second), so[1].Round(time.Second))
+						}
+					}
+					if hi > b {
+						continue
+					}
 					v.windowsJudged++
-					ok, _ := s.complete(k, x, x+W)
+					ok, _ := s.complete(k, x, hi)
 					if ok {
 						continue
 					}
 					// was the key advertised at all inside the window (not counting the tail of a burst that
 					// began before the window)? yes: wrong recipients; no: a gap in the schedule
-					_, any := s.complete(k, x+slack, x+W)
+					_, any := s.complete(k, x+slack, hi)
 					if any {
-						cnt, sig, extra := s.allocSig(&v, k, x, x+W)
-						report(cnt, "reprovide-window", sig, "kept since +%v: advertised inside the window, but never to all healthy peers among its r nearest: %s%s", sg.s.Round(time.Second), s.describe(k, x, x+W), extra)
+						cnt, sig, extra := s.allocSig(&v, k, x, hi)
+						report(cnt, "reprovide-window", sig, "kept since +%v: advertised inside the window, but never to all healthy peers among its r nearest: %s%s", sg.s.Round(time.Second), s.describe(k, x, hi), extra)
 					} else {
-						report(&v.gapFail, "reprovide-window", "reprovide/gap-exceeds-bound", "kept since +%v: no ADD_PROVIDER at all during %v (= interval %v + max delay %v + slack %v): %s", sg.s.Round(time.Second), W, vC17Interval, vC17MaxDelay, slack, s.describe(k, x, x+W))
+						// input class of its own: other keys were handed to StartProviding inside the window,
+						// later than one interval after the start (the schedule holds region prefixes of
+						// different lengths by then; scheduling a new prefix replaces the longer ones under it)
+						sig, during := "reprovide/gap-exceeds-bound", ""
+						for _, tc := range s.startAt {
+							if tc >= vC17Interval && tc > x && tc < hi {
+								sig += "/start-after-first-cycle-inside-window"
+								during = fmt.Sprintf("; StartProviding of other keys at +%v", tc.Round(time.Second))
+								break
+							}
+						}
+						if during == "" && s.oneRegion > 0 && s.oneRegion < x {
+							sig += "/schedule-grown-from-one-region-after-first-cycle"
+							during = fmt.Sprintf("; the schedule held one region (timer armed for a full interval) when StartProviding added more at +%v", s.oneRegion.Round(time.Second))
+						}
+						report(&v.gapFail, "reprovide-window", sig, "kept since +%v: no ADD_PROVIDER at all during %v (= interval %v + max delay %v + slack %v%s): %s%s", sg.s.Round(time.Second), hi-x, vC17Interval, vC17MaxDelay, slack, across, s.describe(k, x, hi), during)
 					}
 					break
 				}
 			}
+		}
+	}
+	// keys handed over during an outage that were still queued when it ended
+	for _, d := range s.deferred {
+		if d.hi > end {
+			continue
+		}
+		v.catchupJudged++
+		ok, any := s.complete(d.k, d.lo, d.hi)
+		if ok {
+			continue
+		}
+		if any {
+			cnt, sig, extra := s.allocSig(&v, d.k, d.lo, d.hi)
+			report(cnt, "catch-up", sig, "%s, advertised after the outage, but not to all healthy peers among its r nearest: %s%s", d.note, s.describe(d.k, d.lo, d.hi), extra)
+		} else {
+			report(&v.catchFail, "catch-up", "outage/queued-not-provided", "%s, the provider never went Offline (provide queue not cleared), back online at +%v: no ADD_PROVIDER within %v: %s", d.note, d.lo.Round(time.Second), d.hi-d.lo, s.describe(d.k, d.lo, d.hi))
 		}
 	}
 	c.ClauseN(s.provideClause, v.provideJudged)
@@ -1048,6 +1161,7 @@ func vC17PickKeys(c *vh.Case, n int, single bool) []int32 {
 
 type vC17Params struct {
 	N, nKeys, r, deadPct int
+	flakyPct             int
 	clusteredSwarm       bool
 	singlePrefixKeys     bool
 	workers              vC17Workers
@@ -1055,7 +1169,7 @@ type vC17Params struct {
 }
 
 func (p vC17Params) String() string {
-	return fmt.Sprintf("N=%d keys=%d r=%d dead=%d%% clustered=%v single-prefix=%v workers=%d/%d/%d conns=%d lat=%v/%v", p.N, p.nKeys, p.r, p.deadPct,
+	return fmt.Sprintf("N=%d keys=%d r=%d dead=%d%% flaky=%d%% clustered=%v single-prefix=%v workers=%d/%d/%d conns=%d lat=%v/%v", p.N, p.nKeys, p.r, p.deadPct, p.flakyPct,
 		p.clusteredSwarm, p.singlePrefixKeys, p.workers.max, p.workers.periodic, p.workers.burst, p.workers.conns, p.routerLat, p.sendLat)
 }
 
@@ -1091,7 +1205,16 @@ func vC17RandParams(c *vh.Case, minN, maxN, maxKeys int) vC17Params {
 }
 
 func (s *vC17Sim) describeCase(p vC17Params) {
+	s.flakyPct = p.flakyPct
 	s.c.Set("params", p.String())
+}
+
+// vC17Flaky switches transient recipient errors on in every 5th case without dead recipients (no PRNG
+// draw: the other parameters of a case do not depend on it).
+func vC17Flaky(c *vh.Case, p *vC17Params) {
+	if c.Idx%5 == 2 && p.deadPct == 0 {
+		p.flakyPct = 20
+	}
 }
 
 // ---- observation of the provider's own warnings -----------------------------------------------
@@ -1181,7 +1304,7 @@ func vC17SelfCheck(c *vh.Case) bool {
 
 func TestVerif_C17_provide(t *testing.T) {
 	vh.Run(t, vh.Spec{Prop: "C17", Unit: "provide", Quick: 42, Thorough: 1200, CostMs: 60,
-		Rule:    "PRNG scenario: swarm of 1-2400 simulated peers (uniform / 70% under one prefix / tiny), router K=20, r in {1,3,5,20}, 0 or 30% dead recipients, worker configurations leaving each class a worker, 0 or 20-100 ms / 2-20 ms router/peer latency; 1-600 keys (uniform or single prefix) handed over in 1-4 StartProviding/ProvideOnce calls plus a forced repeat, own addresses changed at a rest point; 35 virtual minutes; cases with index mod 7 in {1,5}: 300-500 kept keys, then 300-500 ProvideOnce keys draining slowly (400-900 ms per RPC) while the scheduled reprovides of their regions fire; non-trivial = >= 1 hand-over obligation judged; distinct by parameter tuple",
+		Rule:    "PRNG scenario: swarm of 1-2400 simulated peers (uniform / 70% under one prefix / tiny), router K=20, r in {1,3,5,20}, 0 or 30% dead recipients, worker configurations leaving each class a worker, 0 or 20-100 ms / 2-20 ms router/peer latency, every 5th case without dead recipients: 20% of the (key, peer) RPCs fail once (never twice in a row to one peer within a batch; a failed attempt discharges the pair, the provider does not retry records); 1-600 keys (uniform or single prefix) handed over in 1-4 StartProviding/ProvideOnce calls plus a forced repeat, own addresses changed at a rest point; 35 virtual minutes; cases with index mod 7 in {1,5}: 300-500 kept keys, then 300-500 ProvideOnce keys draining slowly (400-900 ms per RPC) while the scheduled reprovides of their regions fire; non-trivial = >= 1 hand-over obligation judged; distinct by parameter tuple",
 		Clauses: []string{"selfcheck", "provide-bound", "payload", "recipient-reported"}},
 		func(c *vh.Case) {
 			if !vC17SelfCheck(c) {
@@ -1196,6 +1319,7 @@ func TestVerif_C17_provide(t *testing.T) {
 				vC17OnceDuringReprovide(t, c)
 				return
 			}
+			vC17Flaky(c, &p)
 			var sim *vC17Sim
 			var end time.Duration
 			c.Bubble(t, 3*time.Hour, "hang", func(t *testing.T) {
@@ -1305,7 +1429,7 @@ func vC17OnceDuringReprovide(t *testing.T, c *vh.Case) {
 
 func TestVerif_C17_reprovide(t *testing.T) {
 	vh.Run(t, vh.Spec{Prop: "C17", Unit: "reprovide", Quick: 98, Thorough: 3000, CostMs: 120,
-		Rule:    "PRNG scenario over 3.6-4.6 virtual hours (interval 1 h, max delay 5 min): keys started in 1-3 calls during the first minutes, then by class (index mod 7): 0/1 steady small provider (800-2000 peers, 30-120 keys: <= 2 keys per region), 2 swarm x4 at a rest point, 3 swarm /4, 4 x4 then /4, 5 many keys with StopProviding / restart of a subset, 6 random churn (3 redraws of the swarm size within [n/4, 4n], <= 2000); clustered swarms stay <= 600 peers (lookup cap of the exploration); r in {1,3,5,20} vs router K=20, dead recipients, worker configurations, latencies as in unit provide; window oracle on every kept key; non-trivial = >= 3 cycles observed and >= 1 full window judged; distinct by parameter tuple + script",
+		Rule:    "PRNG scenario over 3.6-4.6 virtual hours (interval 1 h, max delay 5 min): keys started in 1-3 calls during the first minutes, then by class (index mod 7): 0/1 steady small provider (800-2000 peers, 30-120 keys: <= 2 keys per region), 2 swarm x4 at a rest point, 3 swarm /4, 4 x4 then /4, 5 many keys with StopProviding / restart of a subset, 6 random churn (3 redraws of the swarm size within [n/4, 4n], <= 2000); clustered swarms stay <= 600 peers (lookup cap of the exploration); r in {1,3,5,20} vs router K=20, dead recipients, transient RPC failures, worker configurations, latencies as in unit provide; window oracle on every kept key; non-trivial = >= 3 cycles observed and >= 1 full window judged; distinct by parameter tuple + script",
 		Clauses: []string{"selfcheck", "provide-bound", "reprovide-window", "stop", "payload", "recipient-reported"}},
 		func(c *vh.Case) {
 			if !vC17SelfCheck(c) {
@@ -1335,6 +1459,7 @@ func TestVerif_C17_reprovide(t *testing.T) {
 			if p.clusteredSwarm && (class == 2 || class == 4) && p.N > vC17MaxClustered/4 {
 				p.N = vC17MaxClustered / 4 // the swarm will grow x4
 			}
+			vC17Flaky(c, &p)
 			type ev struct {
 				at   time.Duration
 				kind string
@@ -1496,7 +1621,7 @@ func TestVerif_C17_reprovide(t *testing.T) {
 
 func TestVerif_C17_outage(t *testing.T) {
 	vh.Run(t, vh.Spec{Prop: "C17", Unit: "outage", Quick: 24, Thorough: 700, CostMs: 80,
-		Rule:    "PRNG scenario: 100-1500 peers, 20-400 keys started in the first minutes; after 40-100 min router and peers fail for 1.2-2.8 h (longer than interval + max delay, so every region misses its slot), offline delay 30 min / 2 h (default) / 4 h (Disconnected only); then 1.4 h online; oracle: windows before the outage, complete re-advertisement of every kept key within the catch-up bound, windows afterwards; non-trivial = the provider noticed the outage (left Online) and catch-up was judged for >= 1 key; distinct by parameter tuple",
+		Rule:    "PRNG scenario: 100-1500 peers, 20-400 keys started in the first minutes; after 40-100 min router and peers fail for 1.2-2.8 h (longer than interval + max delay, so every region misses its slot), offline delay 30 min / 2 h (default) / 4 h (Disconnected only); then 1.4 h online; oracle: windows before the outage, complete re-advertisement of every kept key within the catch-up bound, windows afterwards; every 4th case: outage of 3-25 min instead (shorter than every offline delay), windows that meet it end at the catch-up bound after it at the earliest; every 2nd of the long and of the short outages: 5-40 fresh ProvideOnce and 5-40 fresh StartProviding keys handed over 1-20 s after the outage began (advertised within 1 h of its end unless the provider went Offline, which clears the queue) and 10-40 fresh keys started once the provider is Offline (kept from the end of the outage on); non-trivial = the provider noticed the outage (left Online) and catch-up (short outage: a window) was judged for >= 1 key; distinct by parameter tuple",
 		Clauses: []string{"selfcheck", "provide-bound", "catch-up", "reprovide-window", "recipient-reported"}},
 		func(c *vh.Case) {
 			if !vC17SelfCheck(c) {
@@ -1509,15 +1634,26 @@ func TestVerif_C17_outage(t *testing.T) {
 			offDelay := []time.Duration{30 * time.Minute, DefaultOfflineDelay, 4 * time.Hour}[c.R.Intn(3)]
 			o := time.Duration(40+c.R.Intn(61)) * time.Minute
 			u := o + time.Duration(72+c.R.Intn(97))*time.Minute
+			// every 4th case: an outage shorter than the smallest offline delay (the provider gets
+			// Disconnected at most, only the regions whose slot falls into the outage are late);
+			// every 2nd long and every 2nd short case: fresh keys are handed over right after the outage
+			// began and, once the provider is Offline, again
+			short, handover := c.Idx%4 == 3, c.Idx%4 == 1 || c.Idx%8 == 3
+			if short {
+				u = o + time.Duration(3+c.R.Intn(23))*time.Minute
+			}
 			total := u + 84*time.Minute
-			c.Set("outage", fmt.Sprintf("[+%v, +%v] offline delay %v", o, u, offDelay))
+			c.Set("outage", fmt.Sprintf("[+%v, +%v] offline delay %v, hand-overs during the outage: %v", o, u, offDelay, handover))
 			var sim *vC17Sim
 			var end time.Duration
 			noticed, wentOffline := false, false
+			var offlineAt atomic.Int64 // virtual time of the provider's Offline transition (callback), 0 = never
 			c.Bubble(t, 16*time.Hour, "hang", func(t *testing.T) {
 				sim = vC17NewSim(c, p.r, p.deadPct, p.routerLat, p.sendLat, vC17PickPeers(c, p.N, p.clusteredSwarm, map[int32]bool{}))
 				sim.describeCase(p)
-				prov, err := New(sim.options(p.workers, WithOfflineDelay(offDelay))...)
+				prov, err := New(sim.options(p.workers, WithOfflineDelay(offDelay), WithConnectivityCallbacks(nil, nil, func() {
+					offlineAt.CompareAndSwap(0, int64(sim.now())+1)
+				}))...)
 				if err != nil {
 					c.Fail("api-error", "New: %v", err)
 					return
@@ -1540,22 +1676,103 @@ func TestVerif_C17_outage(t *testing.T) {
 				o = sim.now()
 				sim.outage.Store(true)
 				c.Logf("+%v outage begins (router and peers unreachable)", o.Round(time.Second))
+				used := map[int32]bool{}
+				for _, k := range keys {
+					used[k] = true
+				}
+				fresh := func(n int) []int32 {
+					var out []int32
+					for _, i := range c.R.Perm(len(sim.pool.keys)) {
+						if len(out) >= n {
+							break
+						}
+						if !used[int32(i)] {
+							used[int32(i)] = true
+							out = append(out, int32(i))
+						}
+					}
+					return out
+				}
+				// x1: ProvideOnce, x2: StartProviding right after the outage began (the provider still
+				// believes it is online or is Disconnected); x3: StartProviding while the provider is Offline
+				var x1, x2, x3 []int32
+				if handover {
+					time.Sleep(time.Duration(1+c.R.Intn(20)) * time.Second)
+					x1, x2 = fresh(5+c.R.Intn(36)), fresh(5+c.R.Intn(36))
+					c.Logf("+%v during the outage (provider online=%v): ProvideOnce(%d fresh keys), StartProviding(%d fresh keys)", sim.now().Round(time.Millisecond), prov.connectivity.IsOnline(), len(x1), len(x2))
+					if err := prov.ProvideOnce(sim.mhs(x1)...); err != nil {
+						c.Fail("api-error", "ProvideOnce: %v", err)
+					}
+					one := sim.scheduleSize(prov) == 1
+					sim.mu.Lock()
+					sim.startAt = append(sim.startAt, sim.now())
+					if one && sim.now() >= vC17Interval {
+						sim.oneRegion = sim.now()
+					}
+					sim.mu.Unlock()
+					if err := prov.StartProviding(c.R.Intn(2) == 0, sim.mhs(x2)...); err != nil {
+						c.Fail("api-error", "StartProviding: %v", err)
+					}
+				}
 				for sim.now() < u {
-					time.Sleep(10 * time.Minute)
+					step := 10 * time.Minute
+					if short && u-sim.now() < step {
+						step = u - sim.now()
+					}
+					time.Sleep(step)
 					if !prov.connectivity.IsOnline() {
 						noticed = true
 					}
 					if prov.isOffline() {
 						wentOffline = true
 					}
+					if handover && x3 == nil && offlineAt.Load() != 0 && prov.isOffline() && u-sim.now() > time.Minute {
+						x3 = fresh(10 + c.R.Intn(31))
+						c.Logf("+%v during the outage (provider Offline since +%v): StartProviding(%d fresh keys)", sim.now().Round(time.Millisecond), time.Duration(offlineAt.Load()).Round(time.Second), len(x3))
+						sim.mu.Lock()
+						sim.startAt = append(sim.startAt, sim.now())
+						sim.mu.Unlock()
+						if err := prov.StartProviding(false, sim.mhs(x3)...); err != nil {
+							c.Fail("api-error", "StartProviding: %v", err)
+						}
+						c.Obs("keys_started_while_offline", len(x3))
+					}
 				}
 				synctest.Wait()
 				u = sim.now()
 				sim.outage.Store(false)
+				// let the provider notice (probes back off to one minute at most)
+				for i := 0; i < 240 && !prov.connectivity.IsOnline(); i++ {
+					time.Sleep(time.Second)
+				}
+				backOnline := prov.connectivity.IsOnline()
 				sim.mu.Lock()
-				sim.blocked = append(sim.blocked, [2]time.Duration{o, u})
+				if short {
+					sim.shortOut = append(sim.shortOut, [2]time.Duration{o, u})
+				} else {
+					sim.blocked = append(sim.blocked, [2]time.Duration{o, u})
+				}
+				// keys started during the outage are in the keystore: kept from the end of the outage on
+				// (whatever the provider's state was at the hand-over, they are scheduled by then at the
+				// latest - RefreshSchedule on the way back from Offline), judged by the window oracle
+				for _, k := range append(append([]int32(nil), x2...), x3...) {
+					m := sim.km(k)
+					m.segs = append(m.segs, vC17Seg{s: u + 1, open: true})
+				}
+				// keys handed over right after the outage began wait in the provide queue (a failed provide
+				// puts them back) unless the provider went Offline meanwhile, which clears the queue
+				if handover && backOnline && offlineAt.Load() == 0 {
+					for i, k := range append(append([]int32(nil), x1...), x2...) {
+						note := "handed to StartProviding right after the outage began"
+						if i < len(x1) {
+							note = "handed to ProvideOnce right after the outage began"
+						}
+						sim.deferred = append(sim.deferred, vC17Deferred{k: k, lo: u, hi: u + vC17CatchUpBound + vC17ProvideBound, note: note})
+					}
+					c.Obs("keys_queued_through_outage", len(x1)+len(x2))
+				}
 				sim.mu.Unlock()
-				c.Logf("+%v outage ends (noticed=%v, went Offline=%v)", u.Round(time.Second), noticed, wentOffline)
+				c.Logf("+%v outage ends (noticed=%v, went Offline=%v, back online after %v: %v)", u.Round(time.Second), noticed, wentOffline, (sim.now() - u).Round(time.Second), backOnline)
 				sim.sleepUntil(total)
 				sim.rest()
 				end = sim.now()
@@ -1567,8 +1784,11 @@ func TestVerif_C17_outage(t *testing.T) {
 			if wentOffline {
 				c.Obs("went_offline", 1)
 			}
-			if noticed && v.catchupJudged > 0 {
-				c.Nontrivial(p.String() + fmt.Sprintf(" outage=%v offdelay=%v offline=%v", u-o, offDelay, wentOffline))
+			if short {
+				c.Obs("short_outages", 1)
+			}
+			if noticed && (v.catchupJudged > 0 || short && v.windowsJudged > 0) {
+				c.Nontrivial(p.String() + fmt.Sprintf(" outage=%v offdelay=%v offline=%v handover=%v", u-o, offDelay, wentOffline, handover))
 			}
 		})
 }
@@ -1598,7 +1818,7 @@ func vC17QueueKeys(q *queue.ProvideQueue) ([]mh.Multihash, error) {
 
 func TestVerif_C17_restart(t *testing.T) {
 	vh.Run(t, vh.Spec{Prop: "C17", Unit: "restart", Quick: 24, Thorough: 700, CostMs: 60,
-		Rule:    "PRNG scenario: 300-1500 peers, 20-400 ProvideOnce keys + 0-200 StartProviding keys (none in every third case) handed to a first provider whose provide queue cannot drain before Close (one worker, 1-3 connections, recipients taking 150-400 ms; Close 1-40 s or 0-50 ms after the hand-over); queue content sampled right before Close; a second provider on the same datastore/keystore with resume (default) must advertise every sampled key completely within 30 virtual minutes; non-trivial = >= 1 key was still queued at Close; distinct by parameter tuple + queued count",
+		Rule:    "PRNG scenario: 300-1500 peers, 20-400 ProvideOnce keys + 0-200 StartProviding keys (none in every third case) handed to a first provider whose provide queue cannot drain before Close (one worker, 1-3 connections, recipients taking 150-400 ms; Close 1-40 s or 0-50 ms after the hand-over); queue content sampled right before Close; a second provider on the same datastore/keystore with resume (default) must advertise every sampled key completely within 30 virtual minutes and, over the 2.4 virtual hours it runs, re-advertise every key of the keystore (the StartProviding keys) in every window of interval + max delay + slack; non-trivial = >= 1 key was still queued at Close; distinct by parameter tuple + queued count",
 		Clauses: []string{"selfcheck", "restart-resume", "recipient-reported", "payload"}},
 		func(c *vh.Case) {
 			if !vC17SelfCheck(c) {
@@ -1621,7 +1841,7 @@ func TestVerif_C17_restart(t *testing.T) {
 			}
 			c.Set("first_instance", fmt.Sprintf("workers 1/0/0 conns=%d, Close %v after hand-over, %d StartProviding keys", w1.conns, closeAfter, nStart))
 			var sim *vC17Sim
-			var queued []int32
+			var queued, kept []int32
 			isOnce := map[int32]bool{}
 			var tRestart, end time.Duration
 			c.Bubble(t, 6*time.Hour, "hang", func(t *testing.T) {
@@ -1690,7 +1910,9 @@ func TestVerif_C17_restart(t *testing.T) {
 					return
 				}
 				c.Logf("+%v second instance started (workers %d/%d/%d)", tRestart.Round(time.Millisecond), w2.max, w2.periodic, w2.burst)
-				sim.sleepUntil(tRestart + vC17ProvideBound + time.Second)
+				kept = startKeys
+				// two full reprovide windows: the keys of the keystore stay kept across the restart
+				sim.sleepUntil(tRestart + 2*(vC17Interval+vC17MaxDelay+vC17SlackBase+vC17BatchCap) + time.Minute)
 				sim.rest()
 				end = sim.now()
 				sim.closing.Store(true)
@@ -1706,6 +1928,11 @@ func TestVerif_C17_restart(t *testing.T) {
 			sim.mu.Lock()
 			for _, k := range queued {
 				sim.km(k).provides = []time.Duration{tRestart}
+			}
+			// the keys handed to StartProviding in the first instance are in the keystore: kept (window
+			// oracle) from the start of the second instance on
+			for _, k := range kept {
+				sim.km(k).segs = []vC17Seg{{s: tRestart, open: true}}
 			}
 			sim.provideClause, sim.provideSig = "restart-resume", "restart/not-resumed"
 			sim.noteOf = func(k int32) string {
@@ -1725,7 +1952,8 @@ func TestVerif_C17_restart(t *testing.T) {
 			}
 			sim.mu.Unlock()
 			c.Obs("keys_queued_at_close", len(queued))
-			sim.evaluate(end, false)
+			c.Obs("keys_kept_across_restart", len(kept))
+			sim.evaluate(end, true)
 			if len(queued) > 0 {
 				c.Nontrivial(p.String() + fmt.Sprintf(" queued=%d", len(queued)))
 			}
